@@ -106,12 +106,20 @@ func workloadSets(withSel bool) [][]kv.Workload {
 		{w("b", "w2", nil, t2), w("a", "w1", nil, lt)},
 		{w("a", "w2", nil, l1), w("a", "w1", nil, t2), w("b", "w1", nil, nil)},
 		{w("c", "w1", nil, map[string]string{"l": "2"})},
+		// the same selector in two namespaces, and twice in one namespace
+		{w("a", "w1", nil, l1), w("b", "w1", nil, l1)},
+		{w("b", "w2", nil, l1), w("a", "w1", nil, l1)},
+		{w("a", "w1", nil, lt), w("a", "w2", nil, lt)},
+		{w("b", "w1", nil, t2), w("a", "w1", nil, t2), w("c", "w1", nil, t2)},
 	}
 	if withSel {
 		for i, ls := range lss {
 			ns := []string{"a", "b"}[i%2]
 			sets = append(sets, []kv.Workload{w(ns, "w1", ls, t2)})
 			sets = append(sets, []kv.Workload{w(ns, "w1", ls, nil), w("b", "w3", lss[(i+3)%len(lss)], l1)})
+			if i%3 == 0 {
+				sets = append(sets, []kv.Workload{w("a", "w1", ls, nil), w("b", "w1", ls, nil)})
+			}
 		}
 	}
 	return sets
